@@ -99,7 +99,35 @@ def run(chk):
                     chk.violation("input", f"per-template generator object of {p!r} differs between runs of the same file set",
                                   files=files, scripts=scripts, variant=v, artefact="per:" + p)
                     break
-    chk.programs = ngroups * (nperm + 2)
+    # directed import_group cases: which side owns the inline <wxs>, external scripts, or nothing at all
+    inline = ["lib/inline", '<wxs module="m">exports.v=1</wxs><v z="{{m.v}}"/>']
+    plain = ["page/plain", '<v x="{{a}}" y="{{b+1}}"/>']
+    ext = ["page/ext", '<wxs module="e" src="/s0"/><v w="{{e.x}}"/>']
+    tmpl = ["lib/t", '<template name="t">{{a}}</template>']
+    directed = []
+    for files, scripts in (([inline, plain], []), ([inline, plain, tmpl], []), ([ext, plain], [["s0", "exports.x=0"]]), ([inline, ext], [["s0", "exports.x=0"]]),
+                           ([plain, tmpl], [])):
+        for mask in range(1, 2 ** len(files) - 1):
+            mine = [f for i, f in enumerate(files) if mask >> i & 1]
+            theirs = [f for i, f in enumerate(files) if not mask >> i & 1]
+            for ssplit in (0, 1):
+                directed.append((files, scripts, {"files": mine, "scripts": scripts if ssplit else [],
+                                                  "imports": [{"files": theirs, "scripts": [] if ssplit else scripts}]}))
+        directed.append((files, scripts, {"files": [], "scripts": [], "imports": [{"files": files, "scripts": scripts}]}))
+    dref = {}
+    for files, scripts, v in directed:
+        key = json.dumps([files, scripts])
+        if key not in dref:
+            dref[key] = json.loads(one_process([core.req("group", json.dumps({"files": files, "scripts": scripts}))])[0])
+        ref = dref[key]
+        out = json.loads(one_process([core.req("group", json.dumps(v))])[0])
+        chk.case(("import", json.dumps(v)), nontrivial=True)
+        for art in ART:
+            if out[art] != ref[art]:
+                chk.violation("input", f"artefact {art} of a group built with import_group differs from adding the same files directly",
+                              files=files, scripts=scripts, variant=v, artefact=art)
+                break
+    chk.programs = ngroups * (nperm + 2) + len(directed)
     # stylesheets: same input, two processes
     css = [".a{width:10rpx;color:red}@media x{.b .c{margin:-1.5rpx}}:host{display:block}", "@import 'a.css';.x{y:calc(1px + 2rpx)}"]
     opt = json.dumps({"class_prefix": "p", "convert_host": True, "import_sign": "IMP"})
